@@ -43,17 +43,31 @@ def build_lean(targets):
 # the integer kernels of /repo/src whose re-translation (py/kernelgen.py -> Gen/Kernel.lean) the property's theorems use
 KERNELS_OF = {
     "C01": ["insert_unchecked_cmds", "push_unchecked_cmds", "clear_cmds", "pop_consume_cmds", "remove_consume_cmds",
-            "swap_remove_consume_cmds"],
+            "swap_remove_consume_cmds", "raw_index_check_trace", "anyvec_push_trace", "anyvec_insert_trace", "anyvec_pop_trace",
+            "anyvec_remove_trace", "anyvec_swap_remove_trace", "anyvec_drain_trace", "anyvec_clear_trace", "typed_push_trace",
+            "typed_insert_trace", "typed_pop_trace", "typed_remove_trace", "typed_swap_remove_trace", "typed_clear_trace"],
     "C02": ["into_range", "drain_drop_cmds", "move_elements_at_cmds", "splice_drop_pre_cmds", "splice_drop_post_cmds"],
     "C03": ["drop_elements_range_cmds", "temp_drop_cmds", "clear_cmds", "pop_new", "remove_new", "swap_remove_new", "drop_fn_cmds"],
+    "C04": ["raw_type_check_trace", "anyvec_push_trace", "anyvec_insert_trace", "typed_push_trace", "typed_insert_trace",
+            "value_downcast_ref_trace", "value_downcast_trace", "value_downcast_mut_trace", "element_downcast_ref_trace",
+            "element_downcast_mut_trace", "anyvec_downcast_ref_trace", "anyvec_downcast_mut_trace", "value_swap_trace",
+            "value_downcast_unchecked_trace"],
     "C08": ["clone_cmds", "clone_fn_cmds", "raw_clone_empty_in_fields", "raw_clone_empty_fields", "anyvec_clone_empty_fields",
             "anyvec_clone_empty_in_fields", "anyvec_clone_fields"],
+    "C09": ["lazy_move_into_trace", "lazy_clone_into_trace", "value_move_into_trace", "temp_move_into_trace"],
     "C10": ["reserve", "reserve_exact", "shrink_to_fit", "shrink_to", "heap_expand", "expand_exact_default"],
     "C11": ["stack_build", "stackn_build", "stackn_size", "reserve_one", "expand_one"],
+    "C12": ["as_bytes_view", "as_bytes_mut_view", "spare_bytes_mut_view", "as_slice_view", "as_mut_slice_view",
+            "spare_capacity_mut_view", "stack_mem_align", "stackn_mem_align", "stack_max_align"],
+    "C13": ["anyvec_get_trace", "anyvec_get_mut_trace", "anyvec_at_trace", "anyvec_at_mut_trace", "typed_get_trace",
+            "typed_get_mut_trace", "typed_at_trace", "typed_at_mut_trace", "anyvec_iter_trace", "anyvec_iter_mut_trace"],
     "C14": ["iter_len", "iter_next", "iter_next_back", "iter_clone"],
     "C06": ["pop_new", "remove_new", "swap_remove_new", "drain_new", "splice_new", "insert_unchecked_cmds", "clear_cmds",
             "temp_drop_cmds", "splice_drop_pre_cmds", "splice_drop_post_cmds"],
     "C07": ["pop_new", "remove_new", "swap_remove_new", "drain_new", "splice_new", "temp_drop_cmds", "drain_drop_cmds"],
+    "C17": ["anyvec_into_raw_parts_fields", "anyvec_from_raw_parts_fields", "raw_parts_clone_fields", "heapmem_from_raw_parts_fields",
+            "heap_build_fields", "heapmem_into_raw_parts_text"],
+    "C18": ["heap_resize_cmds", "heap_drop_resize"],
 }
 
 def regenerate_kernels():
